@@ -8,12 +8,23 @@ Emits build/coq/C18/Gen.v with
 Committed Bridge.v proves these equal to the constants of the hand model and proves the tag
 inclusions on the generated lists.
 
-Fail-closed: every statement of the modelled functions is either translated into a fact or must
-match, as normalised source text (ast.unparse), the fragment the hand model was written against
-(PINS below).  Anything else raises Unsupported -> the harness reports a broken tie.
+Fail-closed: every statement of the modelled functions is either translated into a fact or is
+covered by a PIN of what the hand model was written against.  Two kinds of pins:
+  * `nf.<function>`: the sha256 of the PATH NORMAL FORM (translator/pathnorm_c18.py) of the whole
+    function: every path with its atomic conditions, effects in order, exit and loop-carried state,
+    expressions as values.  Invariant under extracted helpers, guard clauses vs nesting,
+    temporaries, renamed locals, enumerate vs range(len()), equivalent slices, ...; any change of
+    what a path tests, does or returns changes it.  Used for the .arff / .tsv loaders,
+    _load_dataset and the writer.
+  * `parser.*`: normalised source text (ast.unparse) of the branches of the big .ts parser loop.
+Anything else raises Unsupported -> the harness reports a broken tie.
+`python -m translator.tsformat <repo> --nf <function>` prints a normal form.
 """
 import ast
+import hashlib
 import os
+
+from . import pathnorm_c18
 
 SRC_IO = "sktime/utils/data_io.py"
 SRC_BASE = "sktime/datasets/base.py"
@@ -33,6 +44,15 @@ def _func(mod, name):
         if isinstance(n, ast.FunctionDef) and n.name == name:
             return n
     raise Unsupported("missing function " + name)
+
+
+def _nf(mod, fn):
+    """pin of the path normal form of a whole function"""
+    try:
+        text = pathnorm_c18.normal_form_text(mod, fn)
+    except pathnorm_c18.Unsupported as e:
+        raise Unsupported("normal form of %s: %s" % (fn.name, e))
+    return "sha256:" + hashlib.sha256(text.encode()).hexdigest()
 
 
 def _body(fn):
@@ -98,7 +118,63 @@ def _parts(arg, what):
     return parts
 
 
-def _writer(fn, frags):
+def _effects(nf, depth=0, conds=()):
+    """(loop depth, conditions of the enclosing paths, effect) for every effect of a normal form"""
+    for pc, effects, _exit, _sets in nf:
+        c = conds + tuple(pc)
+        for e in effects:
+            if e[0] == "FOREACH":
+                for x in _effects(e[3], depth + 1, c):
+                    yield x
+            else:
+                yield depth, c, e
+
+
+def _sub(v, pred):
+    if isinstance(v, tuple):
+        if pred(v):
+            yield v
+        for x in v:
+            for y in _sub(x, pred):
+                yield y
+
+
+def _one(values, what):
+    values = set(values)
+    _need(len(values) == 1, "%s: %s" % (what, sorted(values)))
+    return next(iter(values))
+
+
+def _lit(k):
+    return ast.literal_eval(k[1])
+
+
+def _writes(nf):
+    for depth, conds, e in _effects(nf):
+        if e[0] == "CALL" and e[1][0] == "M" and e[1][1] == "write" and len(e[1][3]) == 1:
+            yield depth, conds, e[1][3][0]
+
+
+def _writer_loop_facts(mod, fn):
+    try:
+        nf = pathnorm_c18.Exec(mod).function(fn)
+    except pathnorm_c18.Unsupported as e:
+        raise Unsupported("normal form of the writer: %s" % e)
+    ws = list(_writes(nf))
+    joins = [_lit(j[2]) for d, c, a in ws if d == 2
+             for j in _sub(a, lambda v: v[:2] == ("M", "join") and v[2][0] == "K")]
+    dim = [_lit(a) for d, c, a in ws if d == 2 and a[0] == "K"
+           and any("'univariate'" in at and not pol for at, pol in c)]
+    lab = [_lit(a[1][0]) for d, c, a in ws if d == 1 and a[0] == "FSTR" and len(a[1]) == 2
+           and a[1][0][0] == "K" and a[1][1][0] == "FMT"]
+    _need(joins and dim and lab, "writer: case loop writes not found")
+    return {"writer_value_sep": _one(joins, "writer: value separator"),
+            "writer_dim_sep": _one(dim, "writer: multivariate separator"),
+            "writer_label_sep": _one(lab, "writer: class value separator")}
+
+
+def _writer(fn, frags, mod):
+    frags["nf.write_dataframe_to_tsfile"] = _nf(mod, fn)
     items = []
     facts = {}
     seen_loop = False
@@ -112,31 +188,11 @@ def _writer(fn, frags):
             closed = True
             continue
         if isinstance(st, ast.For):
-            frags["writer.case_loop"] = ast.unparse(st)
             seen_loop = True
-            # literals of the loop (shape pinned by the fragment text)
-            joins = [n for n in ast.walk(st) if isinstance(n, ast.Call)
-                     and isinstance(n.func, ast.Attribute) and n.func.attr == "join"
-                     and isinstance(n.func.value, ast.Constant)]
-            _need(len(joins) == 1, "writer: case loop join")
-            facts["writer_value_sep"] = joins[0].func.value.value
-            inner = [n for n in st.body if isinstance(n, ast.For)]
-            _need(len(inner) == 1, "writer: dimension loop")
-            dim_if = [n for n in inner[0].body if isinstance(n, ast.If)]
-            _need(len(dim_if) == 1 and ast.unparse(dim_if[0].test) == "not univariate"
-                  and len(dim_if[0].body) == 1, "writer: multivariate separator")
-            a = _write_of(dim_if[0].body[0])
-            _need(isinstance(a, ast.Constant), "writer: multivariate separator literal")
-            facts["writer_dim_sep"] = a.value
-            val_if = [n for n in st.body if isinstance(n, ast.If)]
-            _need(len(val_if) == 1 and ast.unparse(val_if[0].test) == "value is not None"
-                  and len(val_if[0].body) == 1, "writer: class value write")
-            a = _write_of(val_if[0].body[0])
-            _need(isinstance(a, ast.JoinedStr) and len(a.values) == 2
-                  and isinstance(a.values[0], ast.Constant)
-                  and isinstance(a.values[1], ast.FormattedValue)
-                  and ast.unparse(a.values[1].value) == "value", "writer: class value f-string")
-            facts["writer_label_sep"] = a.values[0].value
+            # the literals of the case loop are read off the normal form (wherever the code that
+            # writes them lives): what is joined with what per dimension, what follows a dimension
+            # unless univariate, what precedes the class value
+            facts.update(_writer_loop_facts(mod, fn))
             continue
         if not _has_write(st):
             prelude.append(ast.unparse(st))
@@ -148,7 +204,6 @@ def _writer(fn, frags):
         _need(isinstance(st, ast.If), "writer: write inside " + type(st).__name__)
         test = ast.unparse(st.test)
         if test == "comment":
-            frags["writer.comment_block"] = ast.unparse(st)
             _need(not items, "writer: comment block is not first")
             continue
         guards = {"equal_length": "GEqualLength", "series_length > 0": "GSeriesLengthPos"}
@@ -169,7 +224,6 @@ def _writer(fn, frags):
             continue
         raise Unsupported("writer: unknown guard `%s`" % test)
     _need(seen_loop and closed, "writer: no case loop / close")
-    frags["writer.prelude"] = "\n".join(prelude)
     return items, facts
 
 
@@ -262,22 +316,34 @@ def _consts_in(node, pred):
             and isinstance(n.value, str) and pred(n.value)]
 
 
-def _arff(fn, frags):
-    frags["arff.body"] = "\n".join(ast.unparse(s) for s in _body(fn))
+def _arff(fn, frags, mod):
+    frags["nf.load_from_arff_to_dataframe"] = _nf(mod, fn)
+    try:
+        nf = pathnorm_c18.Exec(mod).function(fn)
+    except pathnorm_c18.Unsupported as e:
+        raise Unsupported("normal form of the .arff loader: %s" % e)
     facts = {}
-    ins = [n for n in ast.walk(fn) if isinstance(n, ast.Compare) and len(n.ops) == 1
-           and isinstance(n.ops[0], ast.In) and isinstance(n.left, ast.Constant)]
-    lits = [n.left.value for n in ins]
-    _need(sorted(lits) == ["@attribute", "@data", "relational"], "arff: `in` tests %s" % lits)
+    # the `<literal> in <line>` tests of the loop
+    lits = set()
+    for _d, conds, _e in _effects(nf):
+        for at, _pol in conds:
+            if at.startswith("('CMP', 'In', ('K', "):
+                lits.add(ast.literal_eval(ast.literal_eval(at)[2][1]))
+    _need(sorted(lits) == ["@attribute", "@data", "relational"], "arff: `in` tests %s" % sorted(lits))
     facts["arff_data_tag"] = "@data"
-    sp = _splits(fn)
-    _need(sp.get("line_parts") == {","}, "arff: value split")
-    facts["arff_value_sep"] = ","
+    # the separator of a univariate data line: what the appended series are split on
+    # (the univariate branch appends to instance_list[0], the relational one to instance_list[dim])
+    seps = [_lit(sp[3][0]) for d, c, e in _effects(nf) if d == 1 and e[0] == "CALL"
+            and e[1][:2] == ("M", "append") and e[1][2][0] == "IDX" and e[1][2][2] == ("K", "0")
+            for sp in _sub(e[1][3], lambda v: v[:2] == ("M", "split") and len(v[3]) == 1
+                           and v[3][0][0] == "K")]
+    _need(seps, "arff: value split")
+    facts["arff_value_sep"] = _one(seps, "arff: value split")
     return facts
 
 
-def _tsv(fn, frags):
-    frags["tsv.body"] = "\n".join(ast.unparse(s) for s in _body(fn))
+def _tsv(fn, frags, mod):
+    frags["nf.load_from_ucr_tsv_to_dataframe"] = _nf(mod, fn)
     calls = [n for n in ast.walk(fn) if isinstance(n, ast.Call)
              and ast.unparse(n.func) == "pd.read_csv"]
     _need(len(calls) == 1, "tsv: read_csv")
@@ -287,21 +353,16 @@ def _tsv(fn, frags):
     return {"tsv_sep": kw["sep"].value}
 
 
-def _load_dataset(fn, frags):
-    frags["load_dataset.body"] = "\n".join(ast.unparse(s) for s in _body(fn))
+def _load_dataset(fn, frags, mod):
+    # the whole body (which file for which split, concat appending to the accumulated frame, the two
+    # return forms) is covered by the normal-form pin; the split order is carried into Gallina
+    frags["nf._load_dataset"] = _nf(mod, fn)
     fors = [n for n in ast.walk(fn) if isinstance(n, ast.For)]
-    _need(len(fors) == 1 and ast.unparse(fors[0].target) == "split"
-          and isinstance(fors[0].iter, ast.Tuple)
-          and all(isinstance(e, ast.Constant) for e in fors[0].iter.elts), "_load_dataset: loop")
+    _need(len(fors) == 1 and isinstance(fors[0].target, ast.Name)
+          and isinstance(fors[0].iter, (ast.Tuple, ast.List))
+          and all(isinstance(e, ast.Constant) and isinstance(e.value, str)
+                  for e in fors[0].iter.elts), "_load_dataset: loop over the partitions")
     order = [e.value for e in fors[0].iter.elts]
-    cc = [n for n in ast.walk(fors[0]) if isinstance(n, ast.Call)
-          and ast.unparse(n.func) == "pd.concat"]
-    _need(len(cc) == 2, "_load_dataset: concat calls")
-    for c in cc:
-        _need(len(c.args) == 1 and isinstance(c.args[0], ast.List) and len(c.args[0].elts) == 2
-              and isinstance(c.args[0].elts[0], ast.Name)
-              and c.args[0].elts[0].id in ("X", "y") and not c.keywords,
-              "_load_dataset: concat appends to the accumulated frame")
     return {"split_order": order}
 
 
@@ -311,12 +372,25 @@ def _loaders(mod, frags):
     for n in mod.body:
         if isinstance(n, ast.FunctionDef) and n.name.startswith("load_") \
                 and [a.arg for a in n.args.args] == ["split", "return_X_y"]:
-            b = _body(n)
-            _need(len(b) == 2 and isinstance(b[0], ast.Assign) and ast.unparse(b[0].targets[0]) == "name"
-                  and isinstance(b[0].value, ast.Constant)
-                  and ast.unparse(b[1]) == "return _load_dataset(name, split, return_X_y)",
+            # one path, no effect, returning _load_dataset(<literal name>, split, return_X_y)
+            try:
+                nf = pathnorm_c18.Exec(mod, splice=False).function(n)
+            except pathnorm_c18.Unsupported as e:
+                raise Unsupported("loader %s: %s" % (n.name, e))
+            _need(len(nf) == 1 and not nf[0][0] and not nf[0][1] and nf[0][2][0] == "return",
                   "loader %s shape" % n.name)
-            out.append((n.name, b[0].value.value))
+            v = nf[0][2][1]
+            _need(v[0] == "C" and v[1] == ("S", "_load_dataset"), "loader %s shape" % n.name)
+            bound = dict(zip(["name", "split", "return_X_y", "extract_path"], v[2]))
+            for k, a in v[3]:
+                _need(k not in bound, "loader %s arguments" % n.name)
+                bound[k] = a
+            nm = bound.get("name", ("?",))
+            _need(nm[0] == "K" and bound.get("split") == ("S", "split")
+                  and bound.get("return_X_y") == ("S", "return_X_y")
+                  and bound.get("extract_path", ("K", "None")) == ("K", "None"),
+                  "loader %s arguments" % n.name)
+            out.append((n.name, ast.literal_eval(nm[1])))
     _need(out, "no load_<dataset> functions")
     return out
 
@@ -347,11 +421,11 @@ def fragments_and_facts(repo):
     with open(os.path.join(repo, SRC_BASE)) as f:
         base_mod = ast.parse(f.read())
     frags = {}
-    items, wf = _writer(_func(io_mod, "write_dataframe_to_tsfile"), frags)
+    items, wf = _writer(_func(io_mod, "write_dataframe_to_tsfile"), frags, io_mod)
     tags, pf = _parser(_func(io_mod, "load_from_tsfile_to_dataframe"), frags)
-    af = _arff(_func(io_mod, "load_from_arff_to_dataframe"), frags)
-    tf = _tsv(_func(io_mod, "load_from_ucr_tsv_to_dataframe"), frags)
-    lf = _load_dataset(_func(base_mod, "_load_dataset"), frags)
+    af = _arff(_func(io_mod, "load_from_arff_to_dataframe"), frags, io_mod)
+    tf = _tsv(_func(io_mod, "load_from_ucr_tsv_to_dataframe"), frags, io_mod)
+    lf = _load_dataset(_func(base_mod, "_load_dataset"), frags, base_mod)
     loaders = _loaders(base_mod, frags)
     facts = {}
     facts["loader_decorators"], facts["loader_globals"] = _stateless(io_mod, base_mod)
@@ -361,7 +435,6 @@ def fragments_and_facts(repo):
 
 
 def translate(repo):
-    import hashlib
     from . import tsformat_pins
     frags, items, tags, facts, loaders = fragments_and_facts(repo)
     for name in sorted(set(frags) | set(tsformat_pins.PINS)):
@@ -409,13 +482,22 @@ def translate(repo):
 if __name__ == "__main__":
     import sys
     repo = sys.argv[1] if len(sys.argv) > 1 else "/repo"
-    if len(sys.argv) > 2 and sys.argv[2] == "--record":
+    if len(sys.argv) > 3 and sys.argv[2] == "--nf":
+        for src in (SRC_IO, SRC_BASE):
+            with open(os.path.join(repo, src)) as f:
+                m = ast.parse(f.read())
+            for n in m.body:
+                if isinstance(n, ast.FunctionDef) and n.name == sys.argv[3]:
+                    print(pathnorm_c18.normal_form_text(m, n))
+    elif len(sys.argv) > 2 and sys.argv[2] == "--record":
         frags = fragments_and_facts(repo)[0]
         with open(os.path.join(os.path.dirname(__file__), "tsformat_pins.py"), "w") as f:
-            f.write('"""Normalised source text (ast.unparse) of the fragments of data_io.py / '
-                    'base.py the C18 hand model\nwas written against.  Recorded with `python -m '
-                    'translator.tsformat /repo --record`; re-record only after\nre-validating the '
-                    'model (coq/C18/Model.v) against the new text."""\nPINS = {\n')
+            f.write('"""Pins of the fragments of data_io.py / base.py the C18 hand model was written '
+                    'against: the sha256 of the\npath normal form (translator/pathnorm_c18.py) for '
+                    'whole functions (`nf.*`), normalised source text (ast.unparse)\nfor the '
+                    'branches of the .ts parser loop.  Recorded with `python -m translator.tsformat '
+                    '/repo --record`;\nre-record only after re-validating the model '
+                    '(coq/C18/Model.v) against the new source."""\nPINS = {\n')
             for n in sorted(frags):
                 f.write("    %r:\n" % n)
                 lines = frags[n].split("\n")
